@@ -437,20 +437,21 @@ def gen_mixed(rng):
 def generate(rng, tier):
     """[(family, tags, text, items, ast)]"""
     out = []
-    for pname, pool in POOLS:
-        for c in pool:
-            for pos in SYS_POSITIONS:
-                for fam, text, items, ast in gen_edge(rng, pname, c, pos):
-                    out.append((fam, ["keychars:" + fam, "keychars:pool:" + pname, "keychars:pos:" + pos], text, items, ast))
-    for pname, pool in POOLS:
-        for c in pool:
-            fam, text, items, ast = gen_pair(rng, pname, pool, c)
-            out.append((fam, ["keychars:pair", "keychars:pool:" + pname], text, items, ast))
-    for s in ALLWS:
-        for variant in (0, 1, 2):
-            fam, text, items, ast = gen_ws(rng, s, variant)
-            out.append((fam, ["keychars:ws", "keychars:ws:" + ("other-isspace" if s in CC.OTHER_ISSPACE else "ascii-blank")]
-                        + (["keychars:ws:next-to-invisible"] if variant == 2 else []), text, items, ast))
+    for _round in range(1 if tier == "quick" else 4):       # thorough: the systematic families four times (other words, ws, layouts)
+        for pname, pool in POOLS:
+            for c in pool:
+                for pos in SYS_POSITIONS:
+                    for fam, text, items, ast in gen_edge(rng, pname, c, pos):
+                        out.append((fam, ["keychars:" + fam, "keychars:pool:" + pname, "keychars:pos:" + pos], text, items, ast))
+        for pname, pool in POOLS:
+            for c in pool:
+                fam, text, items, ast = gen_pair(rng, pname, pool, c)
+                out.append((fam, ["keychars:pair", "keychars:pool:" + pname], text, items, ast))
+        for s in ALLWS:
+            for variant in (0, 1, 2):
+                fam, text, items, ast = gen_ws(rng, s, variant)
+                out.append((fam, ["keychars:ws", "keychars:ws:" + ("other-isspace" if s in CC.OTHER_ISSPACE else "ascii-blank")]
+                            + (["keychars:ws:next-to-invisible"] if variant == 2 else []), text, items, ast))
     for _ in range(120 if tier == "quick" else 6000):
         (fam, text, items, ast), used = gen_mixed(rng)
         out.append((fam, ["keychars:mixed"] + ["keychars:pool:" + p for p in used], text, items, ast))
